@@ -37,12 +37,19 @@ pub struct Obs {
     /// between messages; proposals are kept outside as `cached_proposal()` bytes and re-inserted before each commit.
     stateless: Option<Vec<u8>>,
     stateless_cached: Vec<Vec<u8>>,
+    /// the stateless observer's client: built with cache_proposals(false), as the documentation of that flow suggests
+    stateless_client: Option<ExternalClient<XConfig>>,
 }
 
 impl Obs {
     fn make_client(&self, w: &World) -> ExternalClient<XConfig> {
+        self.make_client_with(w, true)
+    }
+
+    fn make_client_with(&self, w: &World, cache_proposals: bool) -> ExternalClient<XConfig> {
         let p = &w.parties[0];
         let mut b = ExternalClient::builder()
+            .cache_proposals(cache_proposals)
             .crypto_provider(VCrypto::new(p.provider))
             .identity_provider(VIdentity::new())
             .extension_types([EXT_TYPE.into(), EXT_TYPE2.into()])
@@ -88,6 +95,7 @@ impl Obs {
             Ok(g) => {
                 self.stateless = g.snapshot().to_bytes().ok();
                 self.stateless_cached.clear();
+                self.stateless_client = Some(self.make_client_with(w, false));
                 self.group = Some(g);
                 self.client = Some(client);
                 self.start_epoch = w.epoch;
@@ -102,7 +110,7 @@ impl Obs {
 
     /// One message through the stateless observer.
     fn stateless_step(&mut self, w: &World, kind: &str, bytes: &[u8]) -> CaseResult {
-        let (Some(snap), Some(client)) = (self.stateless.clone(), self.client.as_ref()) else { return Ok(()) };
+        let (Some(snap), Some(client)) = (self.stateless.clone(), self.stateless_client.as_ref()) else { return Ok(()) };
         let t = w.now();
         let mut g = match guard(|| client.load_group(ExternalSnapshot::from_bytes(&snap)?)) {
             Ok(g) => g,
@@ -128,6 +136,16 @@ impl Obs {
                     Err(e) => return Err(fail("cached_proposal_does_not_decode", format!("{e:?}"))),
                 }
             }
+            // every other time the server is reduced to bytes once more between the insertion and the commit
+            if self.rng.below(2) == 0 {
+                let b = g.snapshot().to_bytes().map_err(|e| fail("observer_snapshot_failed", format!("{e:?}")))?;
+                g = match guard(|| client.load_group(ExternalSnapshot::from_bytes(&b)?)) {
+                    Ok(g) => g,
+                    Err(e) if e.is_panic() => return Err(panic_failure(P, "ExternalClient::load_group(stateless)", &e)),
+                    Err(e) => return Err(fail(&format!("observer_cannot_restore_snapshot|{}", e.class()), e.text().into())),
+                };
+                self.ev.class("stateless_observer_snapshots_with_inserted_proposals");
+            }
             match guard(|| g.process_incoming_message_with_time(MlsMessage::from_bytes(bytes)?, t)) {
                 Ok(ExternalReceivedMessage::Commit(_)) => {
                     self.stateless_cached.clear();
@@ -146,7 +164,7 @@ impl Obs {
     }
 
     fn compare_stateless(&mut self, w: &World) -> CaseResult {
-        let (Some(snap), Some(client)) = (self.stateless.clone(), self.client.as_ref()) else { return Ok(()) };
+        let (Some(snap), Some(client)) = (self.stateless.clone(), self.stateless_client.as_ref()) else { return Ok(()) };
         let g = guard(|| client.load_group(ExternalSnapshot::from_bytes(&snap)?)).map_err(|e| fail(&format!("observer_cannot_restore_snapshot|{}", e.class()), e.text().into()))?;
         let mg = w.parties[w.members()[0]].g();
         if g.group_context() != mg.context() {
@@ -428,6 +446,18 @@ impl Observer for Obs {
                 match r {
                     Ok(m) => {
                         let bytes = m.to_bytes().expect("enc");
+                        // what the observer sends must be something members can commit: a PreSharedKeyID nonce is Nh bytes
+                        // (RFC 9420 §8.4); members drop PSK proposals with any other nonce length when they commit
+                        if let Some((_, spans)) = crate::refmodel::wire::message_spans(&bytes) {
+                            if let Some(sp) = spans.iter().find(|x| x.name.ends_with("psk_nonce")) {
+                                let n = crate::refmodel::tls::Reader::new(&bytes[sp.start..sp.end]).opaque().map(|x| x.len()).unwrap_or(0);
+                                let nh = crate::refmodel::keysched::Suite::new(w.cfg.suite).nh();
+                                if n != nh {
+                                    return Err(fail("observer_psk_proposal_with_wrong_nonce_length", format!("nonce of {n} bytes, KDF.Nh = {nh}")));
+                                }
+                                self.ev.class("observer_psk_proposals_checked");
+                            }
+                        }
                         self.external_proposals += 1;
                         self.ev.class(&format!("external_proposals_kind_{kind}"));
                         self.stateless_step(w, "proposal", &bytes)?;
@@ -501,6 +531,7 @@ pub fn run(ctx: &Ctx) -> ! {
             snapshots: 0,
             stateless: None,
             stateless_cached: vec![],
+            stateless_client: None,
         },
         &|_, o| {
             o.ev.class_n("commits_tracked_by_observer", o.commits_tracked);
